@@ -217,6 +217,10 @@ def _body(shard, *choices):
                 vd.add("completion-callback-differs@%s" % kind)
             if r.went_negative():
                 vd.add("negative-count@%s" % kind)
+            if r.rose_after_zero() and not lr.rose_after_zero():
+                vd.add("count-rises-after-zero@%s" % kind)
+            if cbs.count(key) != lcbs.count(key):
+                vd.add("completion-callback-count-differs@%s" % kind)
         for e in world.emits:
             if e.exc is not None:
                 vd.add("producer-saw-exception@%s" % kind)
